@@ -68,6 +68,13 @@ BASES = {
     "UTCTimeSynchronization": H(NP_UNC + "1009" + "A47E091A06" + "B40C000000"),
     "UnconfirmedCOVNotification": H(NP_UNC + "1002" + "0901" + "1C02000009" + "2C00800001" + "3900" + "4E" + "0955" + "2E" + "4400000000" + "2F" + "4F"),
 }
+# valid requests that say "segmented response accepted" (used by the pair part only): the three kinds of short reply
+PAIR_EXTRA = {
+    "WriteProperty-sa": H(NP_REQ + "0205120F" + "0C00800001" + "1955" + "3E" + "4440000000" + "3F"),          # SimpleAck
+    "ReadProperty-unknown-object-sa": H(NP_REQ + "0205130C" + "0C00800063" + "194D"),                          # Error
+    "unregistered-service-sa": H(NP_REQ + "02051455" + "0901"),                                                 # Reject
+    "IAm-both": H(NP_UNC + "1000" + "C402000009" + "2201E0" + "9100" + "210F"),                                 # segmentedBoth
+}
 VALID = H(NP_REQ + "0005630C" + "0C02000001" + "194D")                 # the valid request of the histories, invoke 99
 PROBE = H(NP_REQ + "0005C80C" + "0C02000001" + "194D")                 # ReadProperty device,1 objectName, invoke 200
 # the same read arriving through a router (second station) on behalf of station 0x21 on network 7, invoke 201
@@ -424,7 +431,8 @@ def reply_apdus(sent, invoke, level):
 
 
 def pair_case(level, name_a, name_b):
-    fa, fb = wrap(level, BASES[name_a]), wrap(level, BASES[name_b])
+    every = dict(BASES, **PAIR_EXTRA)
+    fa, fb = wrap(level, every[name_a]), wrap(level, every[name_b])
     cb = devref.classify(fb, level)
     problems = []
     alone = Device(level)
@@ -527,7 +535,7 @@ def run(tier, seed, deadline):
     # the unmutated bases must be answered (sanity of the harness: reported as violation if not)
     muts = all_mutations(tier)
     t0 = time.time()
-    run_shards(mut_shard, chunks(muts, 256), t0 + (deadline - t0) * 0.6, into=acc)
+    run_shards(mut_shard, chunks(muts, 256), t0 + (deadline - t0) * 0.55, into=acc)
     acc.info["mutated frames"] = len(muts)
     reps = acc.info.pop("representatives", [])
     pool = {}
@@ -551,7 +559,7 @@ def run(tier, seed, deadline):
                     for settle in ((True, False, "deferred") if n <= 2 else (True, False)):
                         items.append((level, frames, settle))
     acc.info["histories"] = len(items)
-    run_shards(hist_shard, chunks(items, 256), deadline, into=acc)
+    hist_items = items          # the widest part runs last: a deadline then cuts its tail, not the smaller parts
     dlg = dialogue_cases(tier)
     acc.info["dialogue replies"] = len(dlg)
     run_shards(dlg_shard, chunks(dlg, 128), deadline, into=acc)
@@ -573,6 +581,9 @@ def run(tier, seed, deadline):
     run_shards(nb_shard, chunks(nb, 8), deadline, into=acc)
     # pairs of valid frames
     pairs = [(level, a, b) for level in ("lan", "ip") for a in BASES for b in BASES]
+    # what the tester announced about itself (I-Am: no segmentation / both) before it asks with "segmented response accepted"
+    pairs += [(level, a, b) for level in ("lan", "ip") for a in ("IAm", "IAm-both") + tuple(PAIR_EXTRA)
+              for b in PAIR_EXTRA if not b.startswith("IAm")]
     # a lone first segment and a valid unsegmented request with the same invoke ID, in both orders
     pairs += [(level, order, b) for level in ("lan", "ip") for order in ("segment-first", "segment-after") for b in BASES
               if devref.classify(wrap(level, BASES[b]), level)["judged"]]
@@ -590,6 +601,7 @@ def run(tier, seed, deadline):
                     fitems.append((flevel, frames, settle))
     acc.info["foreign-device histories"] = len(fitems)
     run_shards(hist_shard, chunks(fitems, 32), deadline, into=acc)
+    run_shards(hist_shard, chunks(hist_items, 256), deadline, into=acc)
     acc.sample({"level": "lan", "base": "ReadProperty", "frame": BASES["ReadProperty"].hex(), "device_sent": a[2]})
     if pool.get("lan"):
         g = pool["lan"][0]
